@@ -1636,6 +1636,13 @@ def stream_verdicts(c, streams, counts):
             continue
         al = args_list if cfg.cache else args_list[:1]
         lc = ll if cfg.cache else ll[:1]
+        if cfg.simplify:
+            ks, vs = X.guarded(lambda: [e.simplified for e in flatten(funcs)[1]], 10)
+            if ks != 'ok':
+                counts['stream:simplifier-deviation(C01)'] += 1
+                c.extra.setdefault('simplifier_deviations_seen', []).append(dict(program=what, why='simplification %s' % ('does not return' if ks == 'hang' else 'raises %r' % (vs,)), pickled=pack(funcs, args_list)))
+                c.log('note: %s: simplification %s: subject of C01, not a verdict of this check' % (what, 'does not return' if ks == 'hang' else 'raises %r' % (vs,)))
+                continue
         verdict, detail, scripts = evaluate_program(funcs, al, cfg, lc)
         if verdict == 'ok':
             vb, db, _ = evaluate_program(funcs, al, BASE, lc)
